@@ -165,7 +165,7 @@ func workgroupsJSON(m *ir.Module) []any {
 
 // named expressions (`let` bindings) of each entry point / function, sorted by name.
 func namedJSON(m *ir.Module) []any {
-	var out []any
+	out := []any{}
 	add := func(fname string, fn *ir.Function) {
 		type ne struct {
 			n string
@@ -378,7 +378,7 @@ func doResolve(j *job, res map[string]any) {
 // range); the Coq model's conversion functions are compared with this on every run.
 func doGoConv(j *job, res map[string]any) {
 	raw, _ := j.Data["bits"].([]any)
-	var out []any
+	out := []any{}
 	for _, e := range raw {
 		s, _ := e.(string)
 		bits, _ := strconv.ParseUint(s, 10, 64)
